@@ -2,9 +2,18 @@
 
 T-gen : Gen/Window.v = img_tools.get_window translated statement by statement (ast); the
         theorems of Props/C16.v about the window are proved on that generated definition.
+        Gen/DatasetFns.v = add_disparity, add_classif, add_segm, add_no_data, add_mask and
+        create_dataset_from_inputs translated statement by statement (translator/gen_dataset_fns.py)
+        over the numpy / xarray / rasterio primitives of Model/DatasetPrims.v; Props/C16.v re-proves at
+        every run that they compute what Model/Dataset.v computes, for all inputs (C16_gen_*_eq), and
+        restates the theorems of the property on the generated create_dataset_from_inputs.
 T-corr: Model/Dataset.v (extracted) against the real create_dataset_from_inputs / get_metadata
         on GeoTIFFs written by this harness with rasterio into a tempfile.mkdtemp() directory
         (outside /repo and /verif, removed at the end).
+        Gen/DatasetFns.v itself (extracted through Extract/X16G.v) against the real
+        create_dataset_from_inputs on the same cases: every variable, coordinate, dims of im, band_disp
+        labels, attrs valid_pixels / no_data_mask / no_data_img / disparity_source, an absent key versus
+        a key given as None (this exercises the translator and Model/DatasetPrims.v directly).
 Spec  : independent Python oracle of the property sentence applied to the real outputs
         (three-way pixel classification, samples unchanged, ROI read = crop of the full read to
         [first - margin, last + margin] intersected with the image, refused iff empty)."""
@@ -18,9 +27,9 @@ import numpy as np
 
 from harness import core
 
-GEN = ["gen_window"]
-EXTRACT_FILES = ["X16"]
-DRIVERS = ["x16"]
+GEN = ["gen_window", "gen_dataset_fns"]
+EXTRACT_FILES = ["X16", "X16G"]
+DRIVERS = ["x16", "x16g"]
 RULE = ("ROI sweep on a 5x4 raster: every (first,last) pair in [-3, n+2] per axis with zero margins (exhaustive), plus a "
         "seeded sample of the cube first,last in [-3,n+2]^4 x margins {0,1,3}^4; random datasets (size, dtype, 1-3 bands, "
         "nodata in {-9999,0,7,NaN,+inf,-inf}, masks with values in {-5,-1,0,1,2,255}, disparity pair/grids, classif, segm) "
@@ -36,7 +45,11 @@ ASSUMES = [
     "mask_semantics / samples_unchanged carry the explicit guard 'no sample is the infinity opposite to nodata'; such "
     "inputs are counted in stats (observed_opposite_inf) and not judged",
 ]
-TRUSTED = ["Gen/Window.v produced by translator/gen_window.py from the ast of img_tools.get_window"]
+TRUSTED = ["Gen/Window.v produced by translator/gen_window.py from the ast of img_tools.get_window",
+           "Gen/DatasetFns.v produced by translator/gen_dataset_fns.py from the ast of add_disparity, add_classif, add_segm, "
+           "add_no_data, add_mask, create_dataset_from_inputs; Model/DatasetPrims.v states the semantics of the numpy / xarray / "
+           "rasterio constructs they use (vectorised expressions pixel by pixel, np.where as the set of selected cells, "
+           "boolean-index assignment, windowed reads, Dataset updates as record updates)"]
 
 NODATAS = [-9999, 0, 7, float("nan"), float("inf"), float("-inf")]
 MASK_VALUES = [-5, -1, 0, 0, 0, 1, 2, 255]
@@ -149,6 +162,11 @@ def gen_dataset_case(rng, rows, cols, force=None):
                            "bands": [[[rng.randrange(0, 2) for _ in range(cols)] for _ in range(rows)] for _ in range(k)]}
     if force.get("segm", rng.random() < 0.4):
         case["segm"] = [[rng.randrange(0, 300) for _ in range(cols)] for _ in range(rows)]
+    # a key given as None (as opposed to an absent key)
+    if "classif" not in case and rng.random() < 0.3:
+        case["classif_none"] = True
+    if "segm" not in case and rng.random() < 0.3:
+        case["segm_none"] = True
     return case
 
 
@@ -208,12 +226,31 @@ class Files:
             pc = os.path.join(d, "classif.tif")
             write_tif(pc, self.classif, case["classif"]["dtype"], case["classif"]["names"])
             self.cfg["classif"] = pc
+        elif case.get("classif_none"):
+            self.cfg["classif"] = None
         self.segm = None
         if "segm" in case:
             self.segm = np.array(case["segm"], dtype=np.int64)
             ps = os.path.join(d, "segm.tif")
             write_tif(ps, self.segm, "int16")
             self.cfg["segm"] = ps
+        elif case.get("segm_none"):
+            self.cfg["segm"] = None
+
+    def gen_inputs(self):
+        """the input section for the regenerated function: a key is [] absent, [[]] None, [[value]] given"""
+        c = self.case
+        mi = self.model_inputs()
+
+        def key(present_none, value):
+            if value is not None:
+                return [[value]]
+            return [[]] if present_none else []
+        mask = key(c["mask_kind"] == "none", [[], [enc_grid(self.mask, int)]] if self.mask is not None else None)
+        disp = [] if c["disp_kind"] == "absent" else [mi[4]]
+        classif = key(bool(c.get("classif_none")), mi[5][0] if self.classif is not None else None)
+        segm = key(bool(c.get("segm_none")), [[], [enc_grid(self.segm, int)]] if self.segm is not None else None)
+        return [mi[0], mi[1], mi[2], mask, disp, classif, segm]
 
     def model_inputs(self):
         c = self.case
@@ -281,6 +318,64 @@ def canon_model_dataset(v):
             opt(v[6], lambda p: [canon_model_arr(p[0], dec_sample), canon_model_arr(p[1], dec_sample)]),
             opt(v[7], lambda p: [list(p[0]), [canon_model_arr(b, int) for b in p[1]]]),
             opt(v[8], lambda a: canon_model_arr(a, int))]
+
+
+STR_CODES = {"row": 0, "col": 1, "band_im": 2, "min": 3, "max": 4}
+
+
+def canon_impl_xds(ds):
+    """the real dataset, in the form Extract/X16G.v prints the generated one"""
+    im = ds["im"].data
+    bands = [im] if im.ndim == 2 else list(im)
+    if "disparity_source" not in ds.attrs:
+        dsrc = None
+    else:
+        v = ds.attrs["disparity_source"]
+        dsrc = 0 if v is None else (2 if isinstance(v, str) else [int(x) for x in v])
+    return [im.ndim, [canon_arr(b, canon_sample) for b in bands],
+            [STR_CODES.get(d, -1) for d in ds["im"].dims],
+            [name_code(n) for n in ds.coords["band_im"].data.tolist()] if "band_im" in ds.coords else None,
+            [int(v) for v in ds.coords["row"].data], [int(v) for v in ds.coords["col"].data],
+            [int(ds.attrs["valid_pixels"]), int(ds.attrs["no_data_mask"])],
+            canon_sample(ds.attrs["no_data_img"]) if "no_data_img" in ds.attrs else None,
+            dsrc,
+            canon_arr(ds["msk"].data, int) if "msk" in ds else None,
+            [STR_CODES.get(x, -1) for x in ds.coords["band_disp"].data.tolist()] if "band_disp" in ds.coords else None,
+            [canon_arr(b, canon_sample) for b in ds["disparity"].data] if "disparity" in ds else None,
+            [name_code(n) for n in ds.coords["band_classif"].data.tolist()] if "band_classif" in ds.coords else None,
+            [canon_arr(b, int) for b in ds["classif"].data] if "classif" in ds else None,
+            canon_arr(ds["segm"].data, int) if "segm" in ds else None]
+
+
+def canon_gen(res):
+    """result of Extract/X16G.v fid 1"""
+    if res[0] == 0:
+        return ["outside"]
+    if res[0] == -1:
+        return ["negative"]
+    v = res[1]
+
+    def opt(x, f):
+        return f(x[0]) if x else None
+    return ["ok", [v[0], [canon_model_arr(b, dec_sample) for b in v[1]], list(v[2]), opt(v[3], list), list(v[4]), list(v[5]),
+                   list(v[6]), opt(v[7], dec_sample), opt(v[8], lambda d: d if isinstance(d, int) else list(d)),
+                   opt(v[9], lambda a: canon_model_arr(a, int)), opt(v[10], list),
+                   opt(v[11], lambda l: [canon_model_arr(b, dec_sample) for b in l]), opt(v[12], list),
+                   opt(v[13], lambda l: [canon_model_arr(b, int) for b in l]),
+                   opt(v[14], lambda a: canon_model_arr(a, int))]]
+
+
+XDS_FIELDS = ["ndim", "im", "im_dims", "band_im", "row", "col", "valid_pixels/no_data_mask", "no_data_img",
+              "disparity_source", "msk", "band_disp", "disparity", "band_classif", "classif", "segm"]
+
+
+def xds_diff(a, b):
+    if a[0] != "ok" or b[0] != "ok":
+        return a[:1], b[:1]
+    for n, x, y in zip(XDS_FIELDS, a[1], b[1]):
+        if x != y:
+            return {n: x}, {n: y}
+    return a, b
 
 
 def run_impl(files, roi):
@@ -542,6 +637,20 @@ def run(ctx):
             margs.append((4, mi))
             prepared.append((case, cid, rois, files))
         mres = model.batch(margs)
+        # the regenerated function itself (skipped when its translation / extraction did not go through: the broken
+        # obligation is already recorded and a stale driver must not be compared)
+        gen_ok = not any(("gen_dataset_fns" in b["name"]) or ("X16G" in b["name"]) or ("x16g" in b["name"]) for b in ctx.broken)
+        gres = []
+        if gen_ok:
+            gargs = []
+            for case, cid, rois, files in prepared:
+                gi = files.gen_inputs()
+                for roi in rois:
+                    gargs.append((1, [gi, [] if roi is None else roi_args(roi, 0, 0)[:8]]))
+            gres = core.Model("x16g").batch(gargs)
+        else:
+            ctx.notes.append("direct comparison of Gen/DatasetFns.v with the real code skipped (translation/extraction broken)")
+        kg = 0
         k = 0
         for case, cid, rois, files in prepared:
             rows, cols = case["rows"], case["cols"]
@@ -561,6 +670,15 @@ def run(ctx):
                 if outcome != mr:
                     ctx.mismatch("create_dataset", {"case_id": cid, "roi": roi, "replay": replay},
                                  summarize(outcome), summarize(mr))
+                if gen_ok:
+                    gx = canon_gen(gres[kg])
+                    kg += 1
+                    ix = ["ok", canon_impl_xds(ds)] if ds is not None else outcome
+                    ctx.traces += 1
+                    ctx.count("gen_direct_compared")
+                    if gx != ix:
+                        di, dg = xds_diff(ix, gx)
+                        ctx.mismatch("gen_create_dataset_from_inputs", {"case_id": cid, "roi": roi, "replay": replay}, di, dg)
                 if roi is None:
                     full = ds
                     flagged = ds is not None and "msk" in ds and bool(np.any(ds["msk"].data != 0))
@@ -602,8 +720,17 @@ def run(ctx):
                                           f"with bands {case['names']}", {"case": case})
     finally:
         shutil.rmtree(tmp, ignore_errors=True)
-    ctx.gen_obligations = ["the window theorems of Props/C16.v are proved on Gen.Window.get_window itself (regenerated "
-                           "from img_tools.get_window at every run; lia after case analysis, all Z)"]
+    ctx.gen_obligations = [
+        "the window theorems of Props/C16.v are proved on Gen.Window.get_window itself (regenerated from "
+        "img_tools.get_window at every run; lia after case analysis, all Z)",
+        "C16_gen_add_disparity_eq: Gen.DatasetFns.add_disparity (regenerated) = the record update the model describes, all inputs",
+        "C16_gen_add_classif_segm_eq: Gen.DatasetFns.add_classif / add_segm (regenerated) = the windowed reads the model describes",
+        "C16_gen_add_no_data_eq: Gen.DatasetFns.add_no_data (regenerated) = Model.Dataset add_no_data_im / add_no_data_attr",
+        "C16_gen_add_mask_eq: Gen.DatasetFns.add_mask (regenerated) = Model.Dataset.add_mask (three-way classification, early return)",
+        "C16_gen_create_eq: Gen.DatasetFns.create_dataset_from_inputs (regenerated; get_window, which window goes to which read, "
+        "the nodata test, the order of the add_* calls) = Gen.Window.get_window then Model.Dataset.create_dataset, all inputs",
+        "C16_gen_read_dtypes: the out_dtype of the six raster reads as regenerated (reflexivity)",
+    ]
 
 
 def random_roi(rng, rows, cols):
